@@ -176,7 +176,7 @@ def gen_random(rng):
                 if rng.random() < 0.15:
                     cpus = []               # "all eligible CPUs"
                 v = cpus
-            hist.append(("set", rng.randrange(nh), k, v))
+            hist.append(("set", rng.randrange(nh), k, v) + (("kw",) if rng.random() < 0.3 else ()))
     return hist
 
 
@@ -343,7 +343,9 @@ def tid_reuse_histories():
     """The number comes back as the id of a non-leader *thread* of another process: not listed in /proc, refused by
     pid_exists(), yet kill(2), setpriority(2), sched_setaffinity(2), ioprio_set(2) and prlimit(2) all accept it."""
     out = []
-    tails = [("sig", 0, "kill", None), ("sig", 0, "terminate", None), ("sig", 0, "suspend", None), ("sig", 0, "send_signal", 10),
+    tails = [("set", 0, "nice", 5, "kw"), ("set", 0, "ionice", [2, 3], "kw"), ("set", 0, "affinity", [0], "kw"),
+             ("set", 0, "rlimit", [7, [5, 9]], "kw"),
+             ("sig", 0, "kill", None), ("sig", 0, "terminate", None), ("sig", 0, "suspend", None), ("sig", 0, "send_signal", 10),
              ("set", 0, "nice", 5), ("set", 0, "ionice", [2, 3]), ("set", 0, "affinity", [0]), ("set", 0, "rlimit", [7, [5, 9]])]
     for tail in tails:
         for seen in ([], [("isrun", 0)], [("sig", 0, "send_signal", 0)], [("wait", 0)], [("q", 0, "name")]):
@@ -360,6 +362,7 @@ def pid0_histories():
             out.append([("new", 0), ("isrun", 0), ("sig", 0, k, signo)])
             out.append([("new", 0), ("iter",), ("sig", 0, k, signo), ("sig", 0, k, signo)])
     for k, v in (("nice", 5), ("ionice", [2, 3]), ("rlimit", [7, [5, 9]]), ("affinity", [0]), ("affinity", [])):
+        out.append([("new", 0), ("set", 0, k, v, "kw")])
         out.append([("new", 0), ("set", 0, k, v)])
         out.append([("iter", "keep"), ("set", 0, k, v), ("isrun", 0), ("set", 0, k, v)])
     for neg in (-1, -2, -7, -2**31, -2**70):
@@ -372,7 +375,9 @@ def signo_histories():
     # state left behind by wait()/wait_procs() between the death and the re-use
     for w_ in (("wait", 0), ("wait", 0, "procs")):
         for z in (False, True):
-            for tail in (("sig", 0, "kill", None), ("set", 0, "nice", 5), ("set", 0, "affinity", []), ("sig", 0, "send_signal", 10)):
+            for tail in (("sig", 0, "kill", None), ("set", 0, "nice", 5), ("set", 0, "affinity", []), ("sig", 0, "send_signal", 10),
+                         ("set", 0, "nice", 5, "kw"), ("set", 0, "ionice", [2, 3], "kw"), ("set", 0, "affinity", [1], "kw"),
+                         ("set", 0, "rlimit", [7, [5, 9]], "kw")):
                 out.append([("spawn", 7, False), ("new", 7), ("exit", 7), ("reap", 7), w_, ("spawn", 7, z), tail])
                 out.append([("spawn", 7, False), ("newp", 7), ("vanish", 7), w_, ("isrun", 0), ("spawn", 7, z), tail])
     for z in (False, True):
